@@ -42,3 +42,11 @@ pub assume_specification<'a, K, V, S, A, Q>[ HashMap::<K, V, S, A>::get_mut::<Q>
                 && old(m)@[key] == *v && final(m)@ == old(m)@.insert(key, *final(v)),
             None => !vstd::std_specs::hash::contains_borrowed_key(old(m)@, k) && final(m)@ == old(m)@,
         };
+
+// ASCII case mapping of strings (only compared against constants / used as an opaque function)
+pub uninterp spec fn str_upper(s: Seq<char>) -> Seq<char>;
+pub uninterp spec fn str_lower(s: Seq<char>) -> Seq<char>;
+pub assume_specification[ str::to_uppercase ](s: &str) -> (r: String)
+    ensures r@ == str_upper(s@);
+pub assume_specification[ str::to_lowercase ](s: &str) -> (r: String)
+    ensures r@ == str_lower(s@);
